@@ -598,6 +598,13 @@ class Evaluator:
             return Builtin(name)
         if name in EXC_PARENTS or name in ("Exception", "LookupError"):
             return ClassRef("builtins:" + name)
+        import builtins as _b
+
+        if hasattr(_b, name):
+            obj = getattr(_b, name)
+            if isinstance(obj, type) and issubclass(obj, BaseException):
+                return ClassRef("builtins:" + name)
+            return Builtin(name)
         raise Unmodelled(f"unbound name {name}", node)
 
     def e_Tuple(self, e, env, fi):
@@ -908,6 +915,20 @@ class Evaluator:
                 return TOP
             if _contains_top(l) or _contains_top(r):
                 return TOP
+            if isinstance(l, (tuple, list)) and isinstance(r, (tuple, list)) and type(l) == type(r):
+                if len(l) != len(r):
+                    return isinstance(op, ast.NotEq)
+                res = True
+                for a, b in zip(l, r):
+                    c = self.compare(ast.Eq(), a, b, node)
+                    if c is TOP:
+                        res = TOP
+                    elif not c:
+                        res = False
+                        break
+                if res is TOP:
+                    return TOP
+                return res if isinstance(op, ast.Eq) else not res
             ll, rr = Lin.of(l), Lin.of(r)
             if ll is not None and rr is not None and (isinstance(l, Lin) or isinstance(r, Lin)):
                 s = self.sign(ll - rr)
@@ -943,6 +964,10 @@ class Evaluator:
                 v = l in r
                 return v if isinstance(op, ast.In) else not v
             if isinstance(r, (str, Text, Sym)) and isinstance(l, (str, Text, Sym)):
+                if isinstance(r, (Text, Sym)) or isinstance(l, (Text, Sym)):
+                    self.events.append(("label-substring", l, r, node))
+                return TOP
+            if isinstance(r, (BoundMethod, ExtRef)):
                 return TOP
             raise Unmodelled(f"membership in {r!r}", node)
         # ordering
@@ -1060,6 +1085,8 @@ class Evaluator:
             m = self.models.get(f.path)
             if m is not None:
                 return m(self, args, kwargs, node)
+            if f.path in ("collections.OrderedDict", "collections.defaultdict") and f.path.endswith("OrderedDict"):
+                return self.call_builtin("dict", args, kwargs, node)
             self.events.append(("extcall", f.path, args, kwargs, node))
             if f.path.endswith("warnings.warn"):
                 return None
@@ -1477,11 +1504,11 @@ class Evaluator:
             return TOP
         kinds = set()
         if isinstance(v, bool):
-            kinds = {"bool", "int"}
+            kinds = {"bool", "int", "Integral", "Rational", "Real", "Complex", "Number"}
         elif isinstance(v, int) or isinstance(v, Lin):
-            kinds = {"int"}
+            kinds = {"int", "Integral", "Rational", "Real", "Complex", "Number"}
         elif isinstance(v, float):
-            kinds = {"float"}
+            kinds = {"float", "Real", "Complex", "Number"}
         elif isinstance(v, (str, Sym, Text)):
             kinds = {"str"}
         elif isinstance(v, dict):
